@@ -121,7 +121,7 @@ CHECKS = {
                      'instance ISOLATED since before the current CHECKING period or whose strategies differ is never admitted, on '
                      'every explored history (late reply of the last XML-RPC of a handshake, TICK on the wire, partition + healing, '
                      'crash + restart, cold starts with differing options); hostile part: isolation is reached by silence under auto_fence, by the NOT_AUTHORIZED answer (reciprocity) and by each strategy '
-                     'option differing; every sequence of forged publications / notifications up to length 2 (3 thorough) from the '
+                     'option differing; every sequence of forged publications / notifications up to length 2 (3 with VERIF_DEEP=1) from the '
                      'isolated peer must leave the observable snapshot unchanged and cause no traffic towards it; process events '
                      'from STOPPED / CHECKING peers must be ignored; ISOLATED must survive a fair closure',
                 note='alphabet: 11 message kinds x timestamps x 4 claimed origins; PROCESS_ADDED from a not-yet-admitted peer is not in '
@@ -221,7 +221,7 @@ def main():
         'engines': engines,
         'checks': checks,
         'not_applicable': na,
-        'notes': 'Model-checking family only. Known findings: known_findings.json. Seeded changes: seeded/.',
+        'notes': 'Model-checking family only. Known findings: known_findings.json. Seeded changes: seeded/ (60, regression in seeded/REGRESSION.txt). Thorough tier: see DESIGN.md 10.6 (deeper than quick for 14 checks, equal for C09, C10, C12, C13, C16, C17; unvalidated deeper variants are exploratory, VERIF_DEEP=1).',
     }
     with open(os.path.join(ROOT, 'MANIFEST.json'), 'w') as f:
         json.dump(manifest, f, indent=1)
